@@ -124,6 +124,7 @@ class RemoteServer():
                             ctx = self.contexts.get(ctx_id, None)
                             if ctx is None:
                                 logger.warning('Context {} does not exist!', ctx_id)
+                                cli.close() # tell the client, which is waiting for our answer
                                 continue
 
                             ctx.call(cli)
@@ -149,6 +150,7 @@ class RemoteServer():
                             if ctx_id in self.contexts:
                                 logger.warning('Context {} already exists', ctx_id)
                                 result = False
+                                context.terminate(timeout=1) # the duplicate has already spawned its helper process
                             else:
                                 self.contexts[ctx_id] = context
 
